@@ -471,7 +471,7 @@ class XPathToken(Token[ta.XPathTokenType]):
                     for value in item.iter_typed_values:
                         yield value
 
-                    if value is None:
+                    if value is None and not item.nilled:
                         msg = f"argument node {item!r} does not have a typed value"
                         raise self.error('FOTY0012', msg)
                 else:
